@@ -2,6 +2,8 @@
 import z3
 from ..harness import *
 from ..reference import semantics as sem
+from ..wlayer import PublicOb
+from ..tlayer import digit, CharLeaf
 
 BIN = ['Add', 'Subtract', 'Multiply', 'Divide', 'Modulo', 'And', 'Or', 'LeftShift', 'RightShift', 'Pow']
 UN = ['Negative', 'Abs', 'Sign', 'Factorial']
@@ -23,6 +25,22 @@ def obligations(ctx):
             assume = None
             if k == 'Factorial': assume = a.var <= 25      # n! overflows from 21 on; larger n only repeat the overflow (and belong to C02)
             obs.append(EvalArm('C06', 'i64', k, (k, a), (lambda v, k=k: sem.i64_ref(k, v)), oc=oc, assume=assume))
+        # W: the same statement end to end (tokenizer, parser and evaluator from MIR): templates with a symbolic digit D and an arbitrary placeholder
+        tag = 'dbg' if oc else 'rel'
+        W = [('@+@', 'Add', 'pp'), ('@*@', 'Multiply', 'pp'), ('@^D', 'Pow', 'pd'), ('2^@', 'Pow', '2p'), ('pow(2,@)', 'Pow', '2p'), ('3^@', 'Pow', '3p'), ('D<<@', 'LeftShift', 'dp'), ('@>>@', 'RightShift', 'pp'),
+             ('@<<D', 'LeftShift', 'pd'), ('@/D', 'Divide', 'pd'), ('D%@', 'Modulo', 'dp'), ('mod(@,D)', 'Modulo', 'pd'), ('-@', 'Negative', 'p'), ('abs(@)', 'Abs', 'p'), ('sgn(@)', 'Sign', 'p'), ('D-@', 'Subtract', 'dp'), ('@&D', 'And', 'pd'), ('@|@', 'Or', 'pp')]
+        if ctx.tier == 'thorough': W += [('D^@', 'Pow', 'dp'), ('pow(D,@)', 'Pow', 'dp'), ('@^@', 'Pow', 'pp'), ('@!', 'Factorial', 'p'), ('D!', 'Factorial', 'd'), ('@⁶³', 'Pow', 'p63'), ('D⁶³', 'Pow', 'd63'), ('2⁶³', 'Pow', '263')]
+        else: W += [('@!', 'Factorial', 'p')]
+        for text, kind, args in W:
+            d = digit('d0')
+            chars = [d if c == 'D' else ord(c) for c in text]
+
+            def ref(cs, ph, kind=kind, args=args, d=d):
+                dv = d.var - 48
+                vals = {'pp': [ph, ph], 'dp': [dv, ph], 'pd': [ph, dv], '2p': [2, ph], '3p': [3, ph], 'p': [ph], 'd': [dv], 'p63': [ph, 63], 'd63': [dv, 63], '263': [2, 63]}[args]
+                return sem.i64_ref(kind, vals)
+            assume = None
+            obs.append(PublicOb('C06', 'i64', chars, ref, 'i64/W/%s/%s' % (text, tag), oc=oc, limits={'steps': 8000, 'timeout_ms': 60000}))
         if ctx.tier == 'thorough':
             # error propagation through a parent node: an overflowing child makes the whole tree Err, never a wrapped value
             for outer in ('Add', 'Multiply', 'Subtract'):
@@ -45,7 +63,7 @@ def obligations(ctx):
 def run(ctx):
     obs = obligations(ctx)
     results = run_obligations(ctx, obs)
-    bounds = dict(layer='E: ast::eval on one node (thorough: two nested nodes) with arbitrary i64 leaves',
+    bounds = dict(layer='E: ast::eval on one node (thorough: two nested nodes) with arbitrary i64 leaves; W: eval_i64 end to end (mod.rs, tokenizer, parser, evaluator from MIR) on one-operator templates with a symbolic digit and an arbitrary placeholder',
                   configurations=['overflow-checks=on', 'overflow-checks=off'],
                   pow='exponent split exactly for 0..64, |base|<=1 periodic and |base|>=2 overflow beyond 64',
                   factorial='n <= 25 (n! overflows i64 from n = 21)', shifts='count split 0..63 exactly, all others one class')
